@@ -677,10 +677,10 @@ func toNumber(numString string) (reflect.Value, error) {
 		}
 		if len(numString) > 800 {
 			// strconv.ParseFloat keeps 800 digits and loses the scale of a longer
-			// integer part: round the exact value instead
-			if r, ok := new(big.Rat).SetString(numString); ok && r.Sign() != 0 {
-				// (a numeral of zeros only keeps what ParseFloat made of it: big.Rat has no -0)
-				exact, _ := r.Float64()
+			// integer part: round the exact value instead (every digit written gets its
+			// four bits, so the only rounding is the one to float64)
+			if bf, _, err := big.ParseFloat(numString, 10, uint(len(numString))*4+64, big.ToNearestEven); err == nil {
+				exact, _ := bf.Float64()
 				if math.IsInf(exact, 0) {
 					return nilValue, &strconv.NumError{Func: "ParseFloat", Num: numString, Err: strconv.ErrRange}
 				}
